@@ -345,6 +345,10 @@ func runScript(idx int, sc script, res *vh.Result) (completed bool) {
 				bad("wire:"+rule, fmt.Sprintf("step %d %s put an invalid frame sequence on the wire (RFC rule: %s): frame %s; frames of this step: %s", si, st.Op, rule, f, fstr(realA[:i+1])))
 				return false
 			}
+			switch f.Len { // payload-length encoding boundaries actually put on the wire
+			case 125, 126, 65535, 65536:
+				res.Count(fmt.Sprintf("wire_frames_len_%d", f.Len), 1)
+			}
 			if f.Op == 0 || (!f.Fin && f.Op < 8) {
 				fragments = true
 			}
